@@ -1,3 +1,4 @@
+mod cluster;
 mod faulty;
 mod group;
 mod keyspace;
@@ -16,6 +17,7 @@ fn main() {
     let rt = tokio::runtime::Builder::new_multi_thread().worker_threads(8).enable_all().build().unwrap();
     match cmd.as_str() {
         "replay-storage" => rt.block_on(storage::replay()),
+        "replay-cluster" => rt.block_on(cluster::replay()),
         "replay-transfer" => rt.block_on(transfer::replay()),
         "transfer-garbage" => rt.block_on(transfer::garbage()),
         other => {
